@@ -336,9 +336,15 @@ def run(ctx):
                     dst = st["rv"]["ty"]
                     if src in width and dst in width and width[dst] < width[src]:
                         okc = False
-                        if f.name == "split_u128" and src == "u128" and dst == "u64":
-                            v = P.val_operand(f, (b, 0), st["rv"]["op"], f.body) if False else None
-                            okc = True
+                        if src == "u128" and dst == "u64":
+                            # lossless by construction: the high half `x >> 64` of a u128 and the masked low half `x & (2^64-1)`
+                            si = blk["stmts"].index(st)
+                            v = P.val_operand(f, (b, si), st["rv"]["op"], f.body)
+                            sh = v[3] if v[0] == "binop" else None
+                            while sh is not None and sh[0] == "cast":
+                                sh = sh[2]
+                            okc = (v[0] == "binop" and v[1] in ("Shr", "ShrUnchecked") and sh == ("const", "int", 64)) or \
+                                  (v[0] == "binop" and v[1] == "BitAnd" and v[3] == ("const", "int", 0xFFFFFFFFFFFFFFFF))
                         if not okc:
                             r1.fail("C08.R1:narrowing-cast:%s" % f.path, f.path, st["span"].replace("!x", ""), "narrowing cast %s -> %s drops high bits" % (src, dst))
                         else:
@@ -346,24 +352,14 @@ def run(ctx):
     r1.sites.extend(["%d call sites in bignumber scanned" % n_calls] * 1)
     r1.evaluations += n_calls
     # split_u128 pattern: ((a >> 64) as u64, (a & 0xFFFF_FFFF_FFFF_FFFF) as u64)
-    sp = [f for f in P.fns.values() if f.crate == "bignumber" and f.name == "split_u128" and f.body is not None]
+    # the splitter (role, found by shape: fn(u128) -> (u64, u64)): ((a >> 64) as u64, (a & 0xFFFF_FFFF_FFFF_FFFF) as u64)
+    sp = splitters(P)
     if len(sp) == 1:
         f = sp[0]
-        ex = common.exit_sites(P, f)
-        good = False
-        if len(ex) == 1 and ex[0][3][0] == "agg" and ex[0][3][1] == "tuple":
-            hi, lo = ex[0][3][3][0][1], ex[0][3][3][1][1]
-            def strip(v):
-                while v[0] == "cast":
-                    v = v[2]
-                return v
-            hi, lo = strip(hi), strip(lo)
-            good = (hi[0] == "binop" and hi[1] in ("Shr", "ShrUnchecked") and hi[2] == ("param", f.path, 0) and strip(hi[3]) == ("const", "int", 64) and
-                    lo[0] == "binop" and lo[1] == "BitAnd" and lo[2] == ("param", f.path, 0) and lo[3] == ("const", "int", 0xFFFFFFFFFFFFFFFF))
-        if good:
+        if splitter_ok(P, f):
             r1.site("split_u128(a) = (a >> 64, a & (2^64-1))")
         else:
-            r1.fail("C08.R1:split_u128", f.path, f.span, "split_u128 is not (a >> 64, a & 0xFFFF_FFFF_FFFF_FFFF)")
+            r1.fail("C08.R1:split_u128", f.path, f.span, "%s is not (a >> 64, a & 0xFFFF_FFFF_FFFF_FFFF)" % f.name)
     r1.floor = 3
 
     # ---- R3 comparisons are the derived ones over a single U256 field ---------------------------------------------------------
@@ -408,7 +404,8 @@ def run(ctx):
             hi_ok = hi[0] == "binop" and hi[1] in ("Shr", "ShrUnchecked") and hi[2] == prm and strip(hi[3]) == ("const", "int", 64)
             # not inlined (public splitter): components .1 / .0 of split_u128(val)
             if not (lo_ok and hi_ok):
-                sp_ = [x for x in common.walk(v) if x[0] == "call" and isinstance(x[3], str) and x[3].endswith("split_u128")]
+                spp_ = {g_.path for g_ in splitters(P) if splitter_ok(P, g_)}
+                sp_ = [x for x in common.walk(v) if x[0] == "call" and isinstance(x[3], str) and generic_path(x[3]) in spp_]
                 if sp_ and set(ctx.roots(sp_[0][4][0])) == {P_(f, 0)}:
                     lo_ok = limbs[0] == ("proj", sp_[0], ("f", 1))
                     hi_ok = limbs[1] == ("proj", sp_[0], ("f", 0))
@@ -421,6 +418,27 @@ def run(ctx):
     z = ctx.inst("C08.Z", "zero tests: Uint256::is_zero / Decimal256::is_zero are U256::is_zero of the single field (or a test of all four limbs) — the operators' zero shortcuts rely on them", floor=2)
     zero_tests(ctx, z)
     ctx.assumptions.append("bigint::U256 + - * abort on overflow / negative, / % are Euclidean and abort on zero (multi-limb carries inside bigint are not analysed)")
+
+
+def splitters(P):
+    """Production functions of bignumber of type fn(u128) -> (u64, u64) (role: the u128 splitter)."""
+    return [f for f in P.fns.values() if f.crate == "bignumber" and f.body is not None and f.kind in ("fn", "assoc_fn") and "::tests::" not in f.path
+            and re.search(r"fn\(u128\) -> \(u64, u64\)$", f.sig or "")]
+
+
+def splitter_ok(P, f):
+    ex = common.exit_sites(P, f)
+    if len(ex) == 1 and ex[0][3][0] == "agg" and ex[0][3][1] == "tuple":
+        hi, lo = ex[0][3][3][0][1], ex[0][3][3][1][1]
+
+        def strip(v):
+            while v[0] == "cast":
+                v = v[2]
+            return v
+        hi, lo = strip(hi), strip(lo)
+        return (hi[0] == "binop" and hi[1] in ("Shr", "ShrUnchecked") and hi[2] == ("param", f.path, 0) and strip(hi[3]) == ("const", "int", 64) and
+                lo[0] == "binop" and lo[1] == "BitAnd" and lo[2] == ("param", f.path, 0) and lo[3] == ("const", "int", 0xFFFFFFFFFFFFFFFF))
+    return False
 
 
 def check_narrow(ctx, inst, target, source, value):
